@@ -809,6 +809,7 @@ Definition min_guard (c : cfg) (q : query) : Prop :=
   | QSub i r _ off a | QSubFn _ i r _ off a =>
       minInt64 + r < eff (c_ts c) off a /\
       minInt64 + c_lookback c + r < eff (eff (c_ts c) off a) (inner_off i) (inner_at i)
+  | _ => True
   end.
 
 Lemma eff_at_offset T off a : T - at_offset T off a 0 = eff T off a.
@@ -895,13 +896,14 @@ Proof. induction l as [|p r IH]; simpl; auto. rewrite IH. destruct p; reflexivit
 
 Theorem engine_eq_spec c q series :
   sortedb series = true -> Forall (fun s => minInt64 < s_t s) series ->
-  wf_query c q = true -> min_guard c q ->
+  wf_query c q = true -> modelled q = true -> min_guard c q ->
   engine_eval c q series = spec_eval c q series.
 Proof.
-  intros Hsb Hmin Hwf Hg. apply sortedb_ssorted in Hsb.
+  intros Hsb Hmin Hwf Hmod Hg. apply sortedb_ssorted in Hsb.
   unfold wf_query in Hwf. apply andb_prop in Hwf as [Hwf Hwq]. apply andb_prop in Hwf as [Hlb Hds].
   apply Z.ltb_lt in Hlb, Hds.
-  destruct q as [i|r off a|f r off a|i r step off a|f i r step off a]; cbn [min_guard] in Hg.
+  destruct q as [i|r off a|f r off a|i r step off a|f i r step off a| |]; try discriminate Hmod;
+    cbn [min_guard] in Hg.
   - (* instant selector / timestamp() *)
     unfold engine_eval, spec_eval.
     rewrite (eval_inner_spec c series i _ [c_ts c]); auto.
@@ -996,13 +998,35 @@ Proof.
   rewrite spec_inner_restrict; auto; unfold hints, eff in *; destruct (inner_at i); destruct a; cbn [fst snd]; lia.
 Qed.
 
+Lemma spec_sub2_restrict c series f1 i r1 s1 off1 a1 r2 s2 off2 a2 :
+  0 < c_defstep c -> 0 <= s1 -> 0 <= s2 ->
+  spec_sub2 c (restrict (hints c (QSub2 f1 i r1 s1 off1 a1 r2 s2 off2 a2)) series) f1 i r1 s1 off1 a1 r2 s2 off2 a2 =
+  spec_sub2 c series f1 i r1 s1 off1 a1 r2 s2 off2 a2.
+Proof.
+  intros Hds Hs1 Hs2.
+  pose proof (sub_interval_pos c s2 Hds Hs2) as Hi2.
+  unfold spec_sub2. apply flat_map_ext_in'. intros u2 Hu2.
+  apply spec_sub_times_in in Hu2; auto. destruct Hu2 as [[Hu2a Hu2b] _].
+  assert (E : spec_sub (mkCfg u2 (c_lookback c) (c_defstep c))
+                (restrict (hints c (QSub2 f1 i r1 s1 off1 a1 r2 s2 off2 a2)) series) i r1 s1 off1 a1 =
+              spec_sub (mkCfg u2 (c_lookback c) (c_defstep c)) series i r1 s1 off1 a1).
+  { unfold spec_sub. cbn [c_ts]. apply flat_map_ext_in'. intros u1 Hu1.
+    assert (Hi1 : 0 < sub_interval (mkCfg u2 (c_lookback c) (c_defstep c)) s1)
+      by (apply sub_interval_pos; auto).
+    apply spec_sub_times_in in Hu1; auto. destruct Hu1 as [[Hu1a Hu1b] _].
+    rewrite spec_inner_restrict; auto; cbn [c_lookback]; unfold hints, eff in *;
+      destruct (inner_at i); destruct a1; destruct a2; cbn [fst snd]; lia. }
+  now rewrite E.
+Qed.
+
 Theorem hints_cover c q series :
   wf_query c q = true ->
   spec_eval c q (restrict (hints c q) series) = spec_eval c q series.
 Proof.
   intros Hwf. unfold wf_query in Hwf. apply andb_prop in Hwf as [Hwf Hwq]. apply andb_prop in Hwf as [Hlb Hds].
   apply Z.ltb_lt in Hlb, Hds.
-  destruct q as [i|r off a|f r off a|i r step off a|f i r step off a]; unfold spec_eval.
+  destruct q as [i|r off a|f r off a|i r step off a|f i r step off a
+                |f1 i r1 s1 off1 a1 r2 s2 off2 a2|f2 f1 i r1 s1 off1 a1 r2 s2 off2 a2]; unfold spec_eval.
   - rewrite spec_inner_restrict; auto; unfold hints, eff; destruct (inner_at i); cbn [fst snd]; try rewrite Z.eqb_refl; lia.
   - apply Z.ltb_lt in Hwq. rewrite spec_window_restrict; auto; unfold hints, eff;
       replace (r =? 0) with false by (symmetry; apply Z.eqb_neq; lia); destruct a; cbn [fst snd]; lia.
@@ -1012,6 +1036,12 @@ Proof.
   - apply andb_prop in Hwq as [Hr Hst]. apply Z.leb_le in Hst.
     change (hints c (QSubFn f i r step off a)) with (hints c (QSub i r step off a)).
     now rewrite spec_sub_restrict.
+  - apply andb_prop in Hwq as [Hwq H4]. apply andb_prop in Hwq as [Hwq H3]. apply andb_prop in Hwq as [H1 H2].
+    apply Z.leb_le in H2, H4. now rewrite spec_sub2_restrict.
+  - apply andb_prop in Hwq as [Hwq H4]. apply andb_prop in Hwq as [Hwq H3]. apply andb_prop in Hwq as [H1 H2].
+    apply Z.leb_le in H2, H4.
+    change (hints c (QSub2Fn f2 f1 i r1 s1 off1 a1 r2 s2 off2 a2)) with (hints c (QSub2 f1 i r1 s1 off1 a1 r2 s2 off2 a2)).
+    now rewrite spec_sub2_restrict.
 Qed.
 
 Lemma restrict_min h series :
@@ -1031,10 +1061,10 @@ Qed.
    selection over the full series *)
 Theorem engine_on_storage_spec c q series :
   sortedb series = true -> Forall (fun s => minInt64 < s_t s) series ->
-  wf_query c q = true -> min_guard c q ->
+  wf_query c q = true -> modelled q = true -> min_guard c q ->
   engine_on_storage c q series = spec_eval c q series.
 Proof.
-  intros Hsb Hmin Hwf Hg. unfold engine_on_storage.
+  intros Hsb Hmin Hwf Hmod Hg. unfold engine_on_storage.
   rewrite engine_eq_spec; auto.
   - now apply hints_cover.
   - apply ssorted_sortedb. unfold restrict. apply ssorted_filter. now apply sortedb_ssorted.
